@@ -257,6 +257,15 @@ def initial_value_rule(ctx: Ctx, iv: T, state_table: T, fi: FunctionInfo, node, 
                         and b.op == "elem" and b.args[1] == (1,):
                     tab_ok = True
         ok = src_ok and tab_ok
+    # (written after seed C01-d) a dense product <values, initial_state_vec> over an array that already holds the +-inf placeholders multiplies
+    # 0 * inf = nan for placeholder states outside the initial support; the expectation must run over the support only
+    dense = (iv.op == "call" and iv.args[0].op == "attr" and iv.args[0].args[1] in ("dot", "matmul")) or (iv.op == "binop" and iv.args[0] == "@") \
+        or (iv.op == "call" and ext_name(iv.args[0]) in ("numpy.dot", "numpy.einsum", "numpy.matmul", "numpy.inner"))
+    if dense and any(x.op == "where" and any(y.op == "attr" and y.args[1] == "undefined_value" for y in walk(x.args[1])) for x in walk(iv)):
+        ctx.violation("BEL-6", fi, node, f"{who}: initial_value = sum over initial_state_dist of reported state_value[s]*p",
+                      f"initial_value is a dense product ({show(iv, 70)}) over values that already carry the undefined-value placeholder: for a placeholder of "
+                      "+-inf and a state outside the initial support it evaluates 0 * inf = nan; the expectation must range over the support of the initial distribution")
+        return
     if ok is None or ok is False:
         # definite only when the reported table (or its data) does not occur in the expression at all
         data = table_data(state_table)
